@@ -80,6 +80,7 @@ class Scheduler:
         self.lock_contentions = 0
         self.line_log: list | None = None
         self.line_filter = None
+        self.log_pyn = False
         self.p_stall = 0.0
         self.abandoned_funcs: set[str] = set()
         self.debug_ring = None
@@ -124,6 +125,8 @@ class Scheduler:
 
     def _local_pyn(self, frame, event, arg):
         if event == "line":
+            if self.line_log is not None and self.log_pyn:
+                self.line_log.append((frame.f_code.co_filename, frame.f_lineno))
             self.yield_point("pyn")
         return self._local_pyn
 
@@ -284,6 +287,18 @@ class Scheduler:
     # blocking primitives
     # ------------------------------------------------------------------
     def sleep(self, seconds) -> None:
+        # argument errors exactly as time.sleep reports them, before any scheduler state changes
+        if isinstance(seconds, bool) or not isinstance(seconds, (int, float)):
+            if hasattr(seconds, "__index__") or hasattr(seconds, "__float__"):
+                seconds = float(seconds)
+            else:
+                raise TypeError(f"'{type(seconds).__name__}' object cannot be interpreted as an integer or float")
+        if seconds != seconds:
+            raise ValueError("Invalid value NaN (not a number)")
+        if seconds < 0:
+            raise ValueError("sleep length must be non-negative")
+        if seconds > 9.0e9:
+            raise OverflowError("timestamp too large to convert to C _PyTime_t")
         me = self.me()
         if me is None or me is not self.current:
             self.clock.advance(int(max(0.0, seconds) * 1e9))
